@@ -3,6 +3,7 @@ import J5V.Bcl.LexShapeProofs
 import J5V.Bcl.DescProofs
 import J5V.Bcl.PreserveProofs
 import J5V.Bcl.IdemProofs
+import J5V.Bcl.BytesProofs
 import J5V.Generated.BcltokensFacts
 import J5V.Generated.BclunicodeFacts
 /-!
@@ -10,8 +11,14 @@ import J5V.Generated.BclunicodeFacts
 
 Only property theorems (+ non-vacuity examples, + obligations over regenerated source facts).
 Models: `J5V.Bcl.Fmt` (`tokenSource`, `quoteString`, `doubleSlashes`, `diffFile`,
-`reformatDescription`, `fmt`), `J5V.Bcl.Lexer`; lemmas: `J5V.Bcl.FmtProofs`.
+`reformatDescription`, `fmt`), `J5V.Bcl.Lexer`, `J5V.Bcl.Parser`; lemmas: `J5V.Bcl.*Proofs`.
 All statements hold for every classifier `cls` (hypotheses about `cls` are explicit).
+
+Contents: token level (`C09_token_inv_*`, `C09_token_inv`, `C09_lexed_tokens_wf`), descriptions
+(`C09_description_words`, `C09_description_reflow_stable`), whole files (`C09_line_inv`,
+`C09_walk_position_free`, `C09_fragments_wf`, `C09_fragment_inv`, `C09_preserves_fragments`, **`C09_preserves`**,
+`C09_output_parses`, **`C09_idempotent`**, `C09_formatter` = the property as stated; `C09_preserves_bytes`,
+`C09_idempotent_bytes` for sources given as bytes), non-vacuity, source obligations.
 
 ## `C09_token_inv_*`: the lexer inverts `tokenSource` for every token kind
 
@@ -272,6 +279,24 @@ theorem C09_formatter (cls : Cls) (hcls : ClsOK cls) (src : List Rune) (ff : Boo
   obtain ⟨out, h1, f', h2, h3⟩ := C09_preserves cls hcls src ff f h
   exact ⟨out, f', h1, h2, h3, C09_idempotent cls hcls src out h1⟩
 
+/-! ### On bytes (Go strings): `fmtSrc` = decode to runes, `Fmt`, encode to UTF-8
+
+The formatter prints only runes of the source and ASCII punctuation (`fmt_runes`), decoding yields valid runes
+(U+FFFD for invalid bytes) and encoding valid runes is inverted by decoding (`decode_encode`), so both whole-file
+theorems hold for `parser.Fmt(string) string` on arbitrary byte strings, invalid UTF-8 included. -/
+
+/-- `C09_preserves` for a source given as bytes -/
+theorem C09_preserves_bytes (cls : Cls) (hcls : ClsOK cls) (bytes : List Nat) (ff : Bool) (f : File)
+    (h : parseFile cls (decodeRunes bytes) ff = .tree f) :
+    ∃ out, fmtSrc cls bytes = .ok out ∧
+      ∃ f', parseFile cls (decodeRunes out) ff = .tree f' ∧ File.equiv cls f' f :=
+  parse_roundtrip_bytes cls hcls bytes ff f h
+
+/-- `C09_idempotent` for a source given as bytes -/
+theorem C09_idempotent_bytes (cls : Cls) (hcls : ClsOK cls) (bytes out : List Nat)
+    (h : fmtSrc cls bytes = .ok out) : fmtSrc cls out = .ok out :=
+  fmtSrc_idempotent cls hcls bytes out h
+
 /-! ## Non-vacuity -/
 
 /-- a description with odd spacing, a tab, leading and repeated blank lines, re-flowed at width 6 -/
@@ -292,6 +317,20 @@ example : (match parseFile asciiCls demoSrc true with | .tree _ => true | _ => f
   decide +kernel
 example : (match fmt asciiCls demoSrc with | .ok out => decide (out ≠ demoSrc) | _ => false) = true := by
   decide +kernel
+
+/-- the equivalence is not trivial: a different literal, or a different word, is a different document -/
+example : ¬ Fragment.equiv asciiCls
+    (.comment ⟨⟨.comment, ofAscii " a", ⟨0, 0⟩, ⟨0, 4⟩⟩, ofAscii " a", ⟨⟨0, 0⟩, ⟨0, 4⟩⟩⟩)
+    (.comment ⟨⟨.comment, ofAscii " b", ⟨3, 0⟩, ⟨3, 4⟩⟩, ofAscii " b", ⟨⟨3, 0⟩, ⟨3, 4⟩⟩⟩) := by
+  simp [Fragment.equiv, Comment.erase, Token.erase, ofAscii]
+example : Fragment.equiv asciiCls
+    (.comment ⟨⟨.comment, ofAscii " a", ⟨0, 0⟩, ⟨0, 4⟩⟩, ofAscii " a", ⟨⟨0, 0⟩, ⟨0, 4⟩⟩⟩)
+    (.comment ⟨⟨.comment, ofAscii " a", ⟨3, 0⟩, ⟨3, 4⟩⟩, ofAscii " a", ⟨⟨3, 0⟩, ⟨3, 4⟩⟩⟩) := by
+  simp [Fragment.equiv, Comment.erase, Token.erase, Span.zero]
+example : ¬ DescEquiv asciiCls ⟨[], ofAscii "one two", Span.zero⟩ ⟨[], ofAscii "one\ntwo three", Span.zero⟩ := by
+  unfold DescEquiv; decide +kernel
+example : DescEquiv asciiCls ⟨[], ofAscii "one  two\n\n\nthree", Span.zero⟩ ⟨[], ofAscii "one\ntwo\n\nthree", Span.zero⟩ := by
+  unfold DescEquiv; decide +kernel
 
 /-- `a/b"c` is a well-formed regex literal -/
 example : RegexLitWF [97, 47, 98, 34, 99] :=
